@@ -227,6 +227,10 @@ def _c21():
     for sc in (3, 0, 1, 2):
         q('cached_freelist_T2_n2_ops1_K4_script%d' % sc, 2, 2, 4, 2, 1, script=sc, unwind_fn={'h_check': 6, r'CachedFreeList.*3getEv': 6}, coro_style='guard',
           tiers=('quick', 'thorough') if sc == 3 else ('thorough',), timeout=1500)
+    # the same over TaggedFreeList as the underlying list
+    for sc in (3, 1, 0, 2):
+        q('cached_tagged_T2_n2_ops1_K4_script%d' % sc, 3, 2, 4, 2, 1, script=sc, unwind_fn={'h_check': 6, r'CachedFreeList.*3getEv': 6}, coro_style='guard',
+          tiers=('quick', 'thorough') if sc in (3, 1) else ('thorough',), timeout=1500)
     # two steps per thread: the 16 step-kind combinations are separate queries (concrete kinds keep symex small); initial ownership and schedule stay symbolic
     for sc in range(16):
         q('freelist_T2_n2_ops2_K4_script%d' % sc, 0, 2, 4, 2, 2, script=sc, tiers=('quick', 'thorough') if sc in (0, 1, 4, 6, 9) else ('thorough',))
